@@ -273,9 +273,35 @@ def run_impl(ctx, exe, casefile, timeout=1800, env=None):
     res = [sx_parse(l) for l in open(outp) if l.strip()]
     return rc, res
 
-def run_model(ctx, runner, casefile, timeout=1800):
-    rc, o, e = sh(['bash', '-c', 'ulimit -s unlimited; exec "%s" "%s"' % (runner, casefile)], timeout=timeout)
-    res = [sx_parse(l) for l in o.splitlines() if l.strip()]
+def run_model(ctx, runner, casefile, timeout=1800, jobs=None):
+    """runs the extracted model on the case file; the file is split in chunks evaluated in parallel"""
+    lines = [l for l in open(casefile) if l.strip() and not l.startswith('#')]
+    jobs = jobs or min(NPROC, max(1, len(lines) // 8))
+    if jobs <= 1:
+        rc, o, e = sh(['bash', '-c', 'ulimit -s unlimited; exec "%s" "%s"' % (runner, casefile)], timeout=timeout)
+        return rc, [sx_parse(l) for l in o.splitlines() if l.strip()]
+    # round-robin split so that expensive cases spread over the workers
+    procs = []
+    for j in range(jobs):
+        part = casefile + '.part%d' % j
+        with open(part, 'w') as f: f.writelines(lines[j::jobs])
+        procs.append((j, subprocess.Popen(['bash', '-c', 'ulimit -s unlimited; exec "%s" "%s"' % (runner, part)],
+                                          stdout=subprocess.PIPE, stderr=subprocess.DEVNULL, text=True)))
+    outs = {}; rc = 0
+    for j, p in procs:
+        try:
+            o, _ = p.communicate(timeout=timeout)
+        except subprocess.TimeoutExpired:
+            p.kill(); o = ''; rc = 124
+        rc = rc or p.returncode
+        outs[j] = [sx_parse(l) for l in o.splitlines() if l.strip()]
+        os.remove(casefile + '.part%d' % j)
+    res = [None] * len(lines)
+    for j in range(jobs):
+        idxs = list(range(j, len(lines), jobs))
+        for k, idx in enumerate(idxs):
+            res[idx] = outs[j][k] if k < len(outs[j]) else None
+    if any(r is None for r in res): res = [r for r in res if r is not None]
     return rc, res
 
 def proof_break_violation(ctx, found_any_input):
